@@ -8,7 +8,7 @@
 From Coq Require Import ZArith List String Bool Lia PeanoNat Permutation.
 From LV Require Import Base.Conc Base.Events Base.Lin Spec.Specs Model.MsPq
   Proofs.MsPqBrc Proofs.MsPqBrcAll Proofs.MsPqInv Proofs.MsPqProofs Proofs.MsPqHeap Proofs.MsPqSeq Proofs.MsPqPhase
-  Proofs.MsPqBounds Proofs.MsPqPush Proofs.MsPqPop.
+  Proofs.MsPqBounds Proofs.MsPqPush Proofs.MsPqPop Proofs.MsPqStack.
 Import ListNotations.
 
 Definition rcap (k : nat) : nat := 2 ^ k - 1.
@@ -56,3 +56,8 @@ Theorem mspq_two_phase_real k bsz hf lf ths c :
   Good (count (Conc.shared c)) (cellv (Conc.shared c)) (cellt (Conc.shared c)) /\
   Permutation (heap_items (rcap k) (Conc.shared c) ++ given_back (Conc.trace c)) (invoked (Conc.trace c)).
 Proof. intros Hk Hb. apply (mspq_two_phase_heap (rcap k) (slots_ok_all k Hk) (shape_ok_all k Hk) bsz Hb). Qed.
+
+Theorem mspq_two_phase_linearizable_real k bsz hf lf ths c :
+  k <= 61 -> rcap k < bsz -> Conc.reach (init_cfg (rcap k) bsz hf lf ths) c ->
+  twophase (Conc.trace c) = true -> linearizable (BPQueue (rcap k)) (hist_of (rcap k) (Conc.trace c)).
+Proof. intros Hk Hb. apply (mspq_two_phase_linearizable (rcap k) (slots_ok_all k Hk) (shape_ok_all k Hk) bsz Hb). Qed.
